@@ -549,24 +549,25 @@ func runC19(c *Ctx) {
 			fns := withClosures(fn)
 			good := false
 			for _, f := range fns {
-				for _, a := range storesTo(f, wi) {
-					bo, ok := stripConv(a.Val).(*ssa.BinOp)
+				for _, a := range deepStoresTo(f, wi) {
+					bo, ok := stripConv(a.Store.Val).(*ssa.BinOp)
 					if !ok || bo.Op != token.ADD || !loadOfField(bo.X, wi) {
 						continue
 					}
+					amount := a.translate(bo.Y)
 					// n is the count of the read (Extract #0 of r.Read, or the completion's n parameter)
 					var errv ssa.Value
 					okN := false
 					if f == fn {
-						if ex, ok := stripConv(bo.Y).(*ssa.Extract); ok && ex.Index == 0 {
+						if ex, ok := stripConv(amount).(*ssa.Extract); ok && ex.Index == 0 {
 							okN = true
 							errv = extractOfInstr(ex.Tuple.(ssa.Instruction), 1)
 						}
-					} else if len(f.Params) == 2 && stripConv(bo.Y) == ssa.Value(f.Params[1]) {
+					} else if len(f.Params) == 2 && stripConv(amount) == ssa.Value(f.Params[1]) {
 						okN = true
 						errv = f.Params[0]
 					}
-					if okN && errv != nil && guardedNil(a.Instr.Block(), errv) {
+					if okN && errv != nil && guardedNil(a.Site.Block(), errv) {
 						good = true
 					}
 				}
